@@ -4,10 +4,6 @@
 #[verifier::external_type_specification] #[verifier::external_body] pub struct ExInstant(Instant);
 
 pub open spec fn crlf2() -> Seq<u8> { seq![13u8, 10u8] }
-/// lower-case hexadecimal digits of n without leading zeros ("{:x}")
-pub uninterp spec fn hex_lower(n: nat) -> Seq<u8>;
-/// decimal digits of n ("{}")
-pub uninterp spec fn dec_digits(n: nat) -> Seq<u8>;
 
 /// `BufWriter::new(writer)`: the bytes of this request are what is written into it until `flush`
 #[verifier::external_body]
